@@ -352,7 +352,7 @@ pub fn run(ctx: &Ctx) {
          exhaustive grid: start offset 0..=63 x T x n in 0..=bits(T) x {all ones, alternating, random} x {msbs, lsbs} followed by a sentinel write; components (generated streams) serialised into all three sinks; \
          non-trivial = sequence with >= 3 ops that crosses a 64-bit word boundary (every grid point counts)",
     );
-    let per = ctx.tier.scale(8000, 10);
+    let per = ctx.tier.scale(60000, 8);
     ctx.search("ops", 16, per, &|| proptest::collection::vec(op_strategy(), 1..40), check_ops);
     let seed = ctx.seed;
     ctx.enumerate("grid", 16, 64 * 4, |i| Grid { offset: (i / 4) as usize, w: (i % 4) as u8, seed }, check_grid);
@@ -360,7 +360,7 @@ pub fn run(ctx: &Ctx) {
         ctx.bulk_distinct.fetch_add(64 * (9 + 17 + 33 + 65) * 6, std::sync::atomic::Ordering::Relaxed);
         ctx.set_extra("exhaustive_spaces", serde_json::json!(["(bit offset 0..=63) x (u8,u16,u32,u64) x (n in 0..=width) x 3 values x {write_msbs, write_lsbs} + sentinel"]));
     }
-    ctx.search("component", 16, ctx.tier.scale(60, 10), &|| stream_case_strategy(CfgOpts { max_block: 1024, ..Default::default() }, InOpts { budget: 4000, ..Default::default() }, false), check_component);
+    ctx.search("component", 16, ctx.tier.scale(400, 8), &|| stream_case_strategy(CfgOpts { max_block: 1024, ..Default::default() }, InOpts { budget: 4000, ..Default::default() }, false), check_component);
 }
 
 pub fn replay(path: &str) -> Result<Outcome, String> {
